@@ -1,5 +1,5 @@
 #!/bin/bash
-# usage: confirm_seed.sh <seed dir> <demo file> <target dir in repo> [go test -run regex]
+# usage: confirm_seed.sh <seed dir> <demo file[,demo file...]> <target dir in repo> [go test -run regex]
 # Confirms a seeded change independently in a throw-away worktree: demo passes on the clean tree;
 # with the patch the module builds, the repository's own tests pass, and the demo fails.
 set -u
@@ -9,12 +9,12 @@ W=$(mktemp -d /tmp/confirm-XXXXXX)
 git -C /repo worktree add --detach "$W/wt" HEAD -q || exit 2
 trap 'git -C /repo worktree remove --force "$W/wt" 2>/dev/null; rm -rf "$W"' EXIT
 cd "$W/wt"
-mkdir -p "$TGT"; cp "$D/$DEMO" "$TGT/" || exit 2
+mkdir -p "$TGT"; for f in ${DEMO//,/ }; do cp "$D/$f" "$TGT/" || exit 2; done
 echo "== clean tree: demo"; go test -count=1 -run "$RUN" "./$TGT/" 2>&1 | tail -3
 CLEAN=$?
 git apply "$D/patch.diff" || { echo "patch does not apply"; exit 2; }
 echo "== patched: build"; go build ./... 2>&1 | tail -3
-rm "$TGT/$DEMO"
+for f in ${DEMO//,/ }; do rm "$TGT/$f"; done
 echo "== patched: repository tests"; go test -count=1 ./... 2>&1 | grep -v "no test files" | tail -6
-cp "$D/$DEMO" "$TGT/"
+for f in ${DEMO//,/ }; do cp "$D/$f" "$TGT/"; done
 echo "== patched: demo"; go test -count=1 -run "$RUN" "./$TGT/" 2>&1 | tail -4
